@@ -96,6 +96,11 @@ def do_op(chan, op):
             chan._unlink()
         elif op == "fileno":
             return ("fd", chan.fileno())
+        elif op == "fileno_chk":
+            # the application polls the descriptor the moment fileno() hands it out
+            fd = chan.fileno()
+            r, _, _ = select.select([fd], [], [], 0)
+            return ("fdchk", fd, bool(r))
         elif op == "close":
             chan.close()
         elif op == "combine":
@@ -122,12 +127,16 @@ def make_body(scn):
         try:
             ths = []
             handed_out = []      # every descriptor a fileno() call returned to the application
+            early = []           # (readable at hand-out time) for fileno_chk operations
 
             def run(prog):
                 for op in prog:
                     r = do_op(chan, op)
                     if isinstance(r, tuple) and r and r[0] == "fd":
                         handed_out.append(r[1])
+                    if isinstance(r, tuple) and r and r[0] == "fdchk":
+                        handed_out.append(r[1])
+                        early.append(r[2])
             for prog in progs:
                 ths.append(vthreading.Thread(target=run, args=(prog,)))
             s.branching = True
@@ -150,6 +159,11 @@ def make_body(scn):
             readable = bool(r)
             expect = (len(chan.in_buffer) > 0 or len(chan.in_stderr_buffer) > 0
                       or chan.eof_received or chan.closed)
+            if early and all(op == "fileno_chk" for prog in progs for op in prog):
+                # nothing but fileno() calls ran: the buffers never changed, so every descriptor had to tell the
+                # final story from the moment it was handed out
+                if any(e != expect for e in early):
+                    readable = "stale-fd:not-yet-wired-when-handed-out"
             # every descriptor ever handed to the application must tell the same story
             for ofd in handed_out:
                 if ofd != fd:
@@ -188,6 +202,8 @@ def scenarios(tier):
             for b in ["feed_out", "feed_err", "recv_all", "eof", "unlink", "fileno"]:
                 out.append((io, ie, False, False, (("fileno",), (b,))))
         out.append((0, 0, False, False, (("fileno",), ("fileno", "feed_out"))))
+        for (io, ie, e0) in [(1, 0, False), (0, 1, False), (0, 0, True), (0, 0, False)]:
+            out.append((io, ie, e0, False, (("fileno_chk",), ("fileno_chk",))))
         out.append((0, 0, False, True, (("feed_out", "recv_all"), ("feed_err", "recv_err_all"))))
         out.append((0, 0, False, True, (("recv_all_t5",), ("feed_out",))))
         out.append((1, 1, False, True, (("unlink",), ("recv_all",))))
@@ -203,6 +219,9 @@ def scenarios(tier):
                 out.append((io, ie, False, False, (("fileno",), (b,))))
             out.append((io, ie, False, False, (("fileno",), ("fileno", "feed_out"))))
             out.append((io, ie, False, False, (("fileno", "recv_all"), ("fileno", "feed_err"))))
+            for e0 in (False, True):
+                out.append((io, ie, e0, False, (("fileno_chk",), ("fileno_chk",))))
+                out.append((io, ie, e0, False, (("fileno_chk",), ("fileno_chk",), ("fileno_chk",))))
         # two ops per thread
         two = [("feed_out", "recv_all"), ("feed_err", "recv_err_all"), ("recv_all", "feed_out"),
                ("feed_out", "feed_out"), ("recv1", "recv1"), ("feed_out", "eof")]
